@@ -48,6 +48,5 @@ class RXXGate(
             env_matrix[0, 3] + env_matrix[1, 2]
             + env_matrix[2, 1] + env_matrix[3, 0],
         )
-        theta = np.arccos(a / np.sqrt(a ** 2 + b ** 2))
-        theta *= -2 if b < 0 else 2
+        theta = 2 * np.arctan2(b, a)
         return [theta]
